@@ -16,6 +16,8 @@
 //     each variant} handed to ProcessNewBlock / ProcessNewBlockHeaders; every sequence gets its own fresh genuine block
 //     on the current tip. Oracle after every delivery: the index entry of hash(G) never carries a BLOCK_FAILED flag, no
 //     variant is ever stored (data on disk == G's transactions), G is accepted and becomes tip whenever delivered.
+//     A second alphabet adds the witness-stuffed variants (weight > 4,000,000 only through ~4 MB of coinbase / transaction
+//     witness: still 'mutated', never 'too heavy') to depth 2 (quick) / 4 (thorough).
 #include <vx/vx.h>
 #include <kits/chainkit.h>
 
@@ -192,7 +194,10 @@ static CBlock WithTxs(const CBlock& g, std::vector<CTransactionRef> vtx)
     return b;
 }
 
-static Family MakeFamily(ck::Node& n, const CBlockIndex* prev, Coins& coins, int nonce, bool every_byte)
+static const std::vector<std::string> OVERSIZED{"oversized/coinbase-witness-one-item", "oversized/coinbase-witness-many-items", "oversized/tx-witness-one-item", "oversized/tx-witness-many-items"};
+
+// `oversized`: which of the ~4 MB variants to build (they cost a 4 MB hash each, so only on demand)
+static Family MakeFamily(ck::Node& n, const CBlockIndex* prev, Coins& coins, int nonce, bool every_byte, const std::set<std::string>& oversized = {})
 {
     Family f;
     // two independent segwit spends, each recreating one coin for the next family
@@ -254,6 +259,29 @@ static Family MakeFamily(ck::Node& n, const CBlockIndex* prev, Coins& coins, int
     add("swap-t1-t2", {G.vtx[0], G.vtx[2], G.vtx[1]});
     add("drop-t2", {G.vtx[0], G.vtx[1]});
     add("drop-coinbase", {G.vtx[1], G.vtx[2]});
+    // weight above MAX_BLOCK_WEIGHT only through witness data, which is not covered by the block hash: such a variant is
+    // malleated (reserved value / commitment mismatch), never "the block is too heavy"
+    for (auto& nm : oversized) {
+        bool cb = nm.find("coinbase") != std::string::npos, many = nm.find("many") != std::string::npos;
+        size_t txi = cb ? 0 : 1;
+        CMutableTransaction m(*G.vtx[txi]);
+        auto& st = m.vin[0].scriptWitness.stack;
+        if (cb) {
+            if (many) st.insert(st.end(), 40000, std::vector<unsigned char>(100, 0x00));   // 32-byte value first, then 40,000 more items
+            else st[0].resize(4000000, 0x00);                                               // one item, first 32 bytes unchanged
+        } else {
+            if (many) st.insert(st.begin(), 40000, std::vector<unsigned char>(100, 0x00));
+            else st.insert(st.begin(), std::vector<unsigned char>(4000000, 0x00));
+        }
+        std::vector<CTransactionRef> v = G.vtx;
+        v[txi] = MakeTransactionRef(m);
+        add(nm, v);
+        const CBlock& ob = f.variants.back().second;
+        if (GetBlockWeight(ob) <= MAX_BLOCK_WEIGHT || ::GetSerializeSize(TX_NO_WITNESS(ob)) != ::GetSerializeSize(TX_NO_WITNESS(G)) || ob.GetHash() != G.GetHash() || ob.m_checked_witness_commitment || ob.fChecked) {
+            printf("HARNESS-ERROR C04 oversized variant %s is not 'same header, same stripped size, weight above the limit, fresh flags'\n", nm.c_str());
+            exit(2);
+        }
+    }
     return f;
 }
 
@@ -329,7 +357,7 @@ int main(int argc, char** argv)
     std::set<std::string> reasons;
     // ---------------------------------------------------------------- (b) single step
     if (replay_seq.empty()) {
-        Family f = MakeFamily(node, node.tip(), coins, nonce++, /*every_byte=*/true);
+        Family f = MakeFamily(node, node.tip(), coins, nonce++, /*every_byte=*/true, std::set<std::string>(OVERSIZED.begin(), OVERSIZED.end()));
         auto check_variant = [&](const std::string& nm, const CBlock& v, bool segwit_commitment_block) {
             single_cases++;
             std::string key = nm.substr(0, nm.find('/'));
@@ -419,9 +447,17 @@ int main(int argc, char** argv)
                                       "coinbase-witness-33-bytes", "commitment-altered", "swap-t1-t2"};
     const int D = big ? 5 : 3;
     vx::Distinct states;
-    uint64_t sequences = 0, g_deliveries = 0, variant_deliveries = 0, variant_before_genuine = 0;
+    uint64_t sequences = 0, g_deliveries = 0, variant_deliveries = 0, variant_before_genuine = 0, oversized_deliveries = 0, oversized_before_genuine = 0;
+    // second alphabet: the ~4 MB witness-stuffed variants (expensive to build, so explored to a smaller depth)
+    std::vector<std::string> alphabet_oversized{"G", "H"};
+    for (auto& o : OVERSIZED) alphabet_oversized.push_back(o);
+    alphabet_oversized.push_back("strip-witness-t1");
+    const int DO = big ? 4 : 2;
+    std::vector<std::string>* cur_alphabet = &alphabet;
     auto run_sequence = [&](const std::vector<int>& seq) {
-        Family f = MakeFamily(node, node.tip(), coins, nonce++, false);
+        std::set<std::string> need;
+        for (int i : seq) if ((*cur_alphabet)[i].rfind("oversized/", 0) == 0) need.insert((*cur_alphabet)[i]);
+        Family f = MakeFamily(node, node.tip(), coins, nonce++, false, need);
         const uint256 before_tip = node.tip()->GetBlockHash();
         std::string hist;
         bool g_delivered = false;
@@ -442,6 +478,7 @@ int main(int argc, char** argv)
             } else {
                 variant_deliveries++;
                 if (!g_delivered) variant_before_genuine++;
+                if (ev.rfind("oversized/", 0) == 0) { oversized_deliveries++; if (!g_delivered) oversized_before_genuine++; }
                 const CBlock* v = nullptr;
                 for (auto& [nm, b] : f.variants) if (nm == ev) v = &b;
                 if (!v) throw std::logic_error("unknown variant " + ev);
@@ -450,7 +487,7 @@ int main(int argc, char** argv)
                 if (r.new_block && g_delivered) report("C04-variant-new-block", "variant " + ev + " reported as a new block after the genuine one was stored");
             }
             Obs o = Observe(node, f.G);
-            std::string last = ev.substr(0, ev.find('/'));
+            std::string last = ev.rfind("oversized/", 0) == 0 ? ev : ev.substr(0, ev.find('/'));
             if (o.failed) report("C04-genuine-hash-marked-failed:after-" + last, "index entry of the genuine block's hash carries a FAILED flag");
             if (o.have_data && !g_delivered) report("C04-variant-stored:" + last, "block data stored for the hash although only variants were delivered");
             if (o.have_data && o.disk != "genuine") report("C04-disk-not-genuine:" + last, "data on disk for the hash is " + o.disk);
@@ -458,7 +495,7 @@ int main(int argc, char** argv)
             if (!g_delivered && node.tip()->GetBlockHash() != before_tip) report("C04-tip-moved-by-variant:" + last, "tip moved although the genuine block was not delivered");
             states.add(std::string(o.index ? "I" : "-") + (o.have_data ? "D" : "-") + (o.failed ? "F" : "-") + (o.tip ? "T" : "-") + (g_delivered ? "g" : "."));
         };
-        for (int i : seq) step(alphabet[i]);
+        for (int i : seq) step((*cur_alphabet)[i]);
         if (!g_delivered) step("G"); // the genuine block must still be acceptable after any prefix of variants
         sequences++;
         if (sequences % 211 == 1) E.sample("history: " + hist + " -> genuine block is tip, never failed");
@@ -494,7 +531,27 @@ int main(int argc, char** argv)
         if (cut) { E.exhaustive = false; break; }
         completed_depth = d;
     }
+    int completed_depth_oversized = 0;
+    cur_alphabet = &alphabet_oversized;
+    for (int d = 1; d <= DO && E.exhaustive; d++) {
+        if (vx::deadline_reached()) { E.exhaustive = false; break; }
+        std::vector<int> seq(d, 0);
+        bool cut = false;
+        for (;;) {
+            run_sequence(seq);
+            int i = d - 1;
+            while (i >= 0 && ++seq[i] == (int)alphabet_oversized.size()) seq[i--] = 0;
+            if (i < 0) break;
+            if ((sequences & 15) == 0 && vx::deadline_reached()) { cut = true; break; }
+        }
+        if (cut) { E.exhaustive = false; break; }
+        completed_depth_oversized = d;
+    }
     E.states = states.size();
+    E.set("completed_depth_oversized_alphabet", (uint64_t)completed_depth_oversized);
+    E.set("oversized_variant_deliveries", oversized_deliveries);
+    E.set("oversized_variant_deliveries_before_genuine", oversized_before_genuine);
+    if (E.exhaustive && !oversized_before_genuine) { printf("HARNESS-ERROR C04 no oversized variant was delivered before its genuine block\n"); bad = true; }
     E.set("sequences", sequences);
     E.set("completed_depth", (uint64_t)completed_depth);
     E.set("alphabet_size", (uint64_t)alphabet.size());
@@ -507,9 +564,12 @@ int main(int argc, char** argv)
     E.distinct_nontrivial = st.distinct.size();
     std::string al;
     for (auto& a : alphabet) al += a + " ";
+    std::string alo;
+    for (auto& a : alphabet_oversized) alo += a + " ";
     E.rule = "(a) evaluations: every list length 1..N x {root, mutation flag, every CVE-2012-2459 variant at every level, block/witness root, merkle path of every position} + all lists of length <= 7 over 3 symbols, vs a level-by-level reference; "
              "(b) every same-header variant of a genuine segwit block (each witness byte altered singly) through IsBlockMutated + TestBlockValidity, compact-block FillBlock with wrong transactions; "
-             "(c) states/transitions: every sequence with repetition of length <= D over {" + al + "} delivered to ProcessNewBlock/ProcessNewBlockHeaders (a fresh genuine block per sequence on the current tip, G appended when the sequence lacks it); "
+             "(c) states/transitions: every sequence with repetition of length <= D over {" + al + "} delivered to ProcessNewBlock/ProcessNewBlockHeaders (a fresh genuine block per sequence on the current tip, G appended when the sequence lacks it), and every sequence of length <= " + std::to_string(DO) + " over {" + alo + "} "
+             "(variants whose weight exceeds 4,000,000 only through ~4 MB of witness data in the coinbase or in a transaction, one item / 40,000 items); "
              "state = (index entry, HAVE_DATA, FAILED, is tip, genuine delivered); distinct = distinct enumeration cases of (a)";
     E.assume("regtest, segwit active; double-SHA256 collision freedom (distinct leaves have distinct hashes)");
     int rc = vx::finish();
